@@ -118,6 +118,10 @@ def run_virtual_case(case) -> Result:
             client = vworld.Client("192.0.2.7", vworld.V2C("public"), port=1161)
             client.configure(timeout=T, retries=retries)
             return vworld.observe(await client.get(vworld.OID(OID)))
+        if case.get("cancel_at") is not None:
+            # the caller's own deadline: the call is cancelled from outside while an attempt is in flight
+            return await asyncio.wait_for(send_udp(Endpoint("192.0.2.7", 1161), REQUEST, timeout=T, retries=retries),
+                                          case["cancel_at"])
         return await send_udp(Endpoint("192.0.2.7", 1161), REQUEST, timeout=T, retries=retries)
 
     loop = L(scripts, reply)
@@ -153,7 +157,19 @@ def run_virtual_case(case) -> Result:
         return bad("the call can never complete: %s" % out[1])
     want_reply = REPLY if via != "client" else None
     acc = acceptable(retries, T, kinds, want_reply, frs)
-    if out[0] == "ok":
+    cancel_at = case.get("cancel_at")
+    if cancel_at is not None:
+        classes.append("caller_cancels")
+        nontrivial = True
+        if all(a[2] > cancel_at + 1e-9 for a in acc):
+            # every acceptable completion lies after the caller's deadline: the call must end by cancellation
+            acc = [("cancelled", None, cancel_at)]
+        elif any(a[2] > cancel_at - 1e-9 for a in acc):
+            acc.append(("cancelled", None, cancel_at))
+    if out[0] == "exc" and isinstance(out[1], (asyncio.TimeoutError, asyncio.CancelledError)) and not isinstance(out[1], Timeout):
+        if not [a for a in acc if a[0] == "cancelled" and abs(a[2] - t_end) < 1e-6]:
+            return bad("ended by cancellation at virtual time %r; acceptable outcomes: %s" % (t_end, acc))
+    elif out[0] == "ok":
         val = out[1]
         if via == "client":
             ok = [a for a in acc if a[0] == "ok" and a[1] is None and abs(a[2] - t_end) < 1e-6]
@@ -383,6 +399,16 @@ def virtual_cases(draw):
 
 
 @st.composite
+def cancel_cases(draw):
+    c = draw(virtual_cases())
+    c["via"] = "send_udp"
+    total = c["retries"] * c["timeout"]
+    # never at the very instant of a scripted network event (the order of two callbacks of one loop iteration is not specified)
+    c["cancel_at"] = total * draw(st.sampled_from([0.05, 0.2, 0.45, 0.55, 0.8, 0.95, 1.2])) + c["timeout"] * 0.00137
+    return c
+
+
+@st.composite
 def loop_cases(draw):
     r = draw(st.integers(1, 3))
     return dict(tier="loopback", retries=r, timeout=draw(st.sampled_from([0.03, 0.05, 0.08])),
@@ -402,6 +428,9 @@ def units(tier, seed):
     for sh in range(2 if tier == "quick" else 8):
         us.append(Unit("virtual-hyp-%d" % sh, hypothesis_unit, strategy=virtual_cases(), examples=300 if tier == "quick" else 5000,
                        seed=shard_seed(seed, 40 + sh), label="virtual-hyp-%d" % sh))
+    for sh in range(1 if tier == "quick" else 4):
+        us.append(Unit("cancel-hyp-%d" % sh, hypothesis_unit, strategy=cancel_cases(), examples=300 if tier == "quick" else 4000,
+                       seed=shard_seed(seed, 60 + sh), label="cancel-hyp-%d" % sh))
     us.append(Unit("loopback-plans", enumeration_unit, cases=_Loop(LOOPBACK_PLANS, 0.05, 3), label="loopback-plans",
                    exhaustive=False, stop_after=3))
     n = 4 if tier == "quick" else 30
